@@ -68,6 +68,19 @@ func (e *SpecEnv) curState() *state {
 
 func untyped(term string) Val { return Val{T: term} }
 
+// loaded wraps a value read from memory inside a specification; it satisfies its type invariant.
+func (e *SpecEnv) loaded(term string, t types.Type) Val {
+	vc := e.vc
+	switch t.Underlying().(type) {
+	case *types.Pointer, *types.Map, *types.Slice, *types.Basic:
+		cs := vc.S.typeInv(term, t, vc.allocTerm(e.curState().heap), 0)
+		for _, c := range cs {
+			vc.assume("true", c)
+		}
+	}
+	return vc.mkVal(term, t)
+}
+
 func (e *SpecEnv) lookupDefine(name string) *Define {
 	if e.contract != nil {
 		if d, ok := e.contract.Defines[name]; ok {
@@ -210,7 +223,7 @@ func (e *SpecEnv) eval(x ast.Expr) (Val, error) {
 			return Val{}, fmt.Errorf("dereference of non-pointer %s", exprString(t.X))
 		}
 		term := vc.load(e.curState(), v.Loc)
-		return vc.mkVal(term, vc.locType(v.Loc)), nil
+		return e.loaded(term, vc.locType(v.Loc)), nil
 	case *ast.BinaryExpr:
 		return e.evalBinary(t)
 	case *ast.SelectorExpr:
@@ -351,9 +364,45 @@ func (e *SpecEnv) lookupLocal(name string) (Val, bool) {
 			}
 		}
 	}
+	// the variable in scope at the evaluation point: innermost declaring scope containing it
+	var at token.Pos
+	if e.at != nil {
+		at = firstPos(e.at)
+	}
+	var obj *types.Var
+	for i := range fr.vars[name] {
+		o := fr.vars[name][i].obj
+		if o == nil || o.Parent() == nil {
+			continue
+		}
+		if at.IsValid() && at < token.Pos(1<<40) && !(o.Parent().Pos() <= at && at <= o.Parent().End()) {
+			continue
+		}
+		if obj == nil || o.Parent().Pos() > obj.Parent().Pos() || (o.Parent().Pos() == obj.Parent().Pos() && o.Pos() > obj.Pos() && o.Pos() <= at) {
+			obj = o
+		}
+	}
 	var best *varDef
 	for i := range fr.vars[name] {
 		d := &fr.vars[name][i]
+		if obj != nil && d.obj != obj {
+			continue
+		}
+		if d.isAddr {
+			if _, defined := fr.vals[d.v]; defined {
+				best = d
+				break
+			}
+		}
+	}
+	for i := range fr.vars[name] {
+		if best != nil && best.isAddr {
+			break
+		}
+		d := &fr.vars[name][i]
+		if obj != nil && d.obj != obj {
+			continue
+		}
 		if _, defined := fr.vals[d.v]; !defined {
 			if _, isParam := d.v.(*ssa.Parameter); !isParam {
 				if _, isConst := d.v.(*ssa.Const); !isConst {
@@ -480,8 +529,7 @@ func (e *SpecEnv) fieldOf(v Val, idx int) (Val, error) {
 		l.Path = append(append([]int{}, v.Loc.Path...), idx)
 		ft := p.Elem().Underlying().(*types.Struct).Field(idx).Type()
 		term := vc.load(e.curState(), &l)
-		r := vc.mkVal(term, ft)
-		return r, nil
+		return e.loaded(term, ft), nil
 	}
 	st, ok := t.Underlying().(*types.Struct)
 	if !ok {
@@ -581,13 +629,13 @@ func (e *SpecEnv) evalIndex(t *ast.IndexExpr) (Val, error) {
 	switch u := c.Typ.Underlying().(type) {
 	case *types.Map:
 		_, val := vc.mapLookup(e.curState(), u, c.T, k.T)
-		return vc.mkVal(val, u.Elem()), nil
+		return e.loaded(val, u.Elem()), nil
 	case *types.Slice:
 		if isByteSlice(c.Typ) {
 			return Val{}, fmt.Errorf("indexing bytes not supported")
 		}
 		inner := vc.sel(e.curState(), vc.elemKey(u.Elem()), "(sarr "+c.T+")")
-		return vc.mkVal(fmt.Sprintf("(select %s %s)", inner, k.T), u.Elem()), nil
+		return e.loaded(fmt.Sprintf("(select %s %s)", inner, k.T), u.Elem()), nil
 	}
 	return Val{}, fmt.Errorf("index on %v", c.Typ)
 }
@@ -606,6 +654,16 @@ func (e *SpecEnv) evalArgs(args []ast.Expr) ([]Val, error) {
 
 func (e *SpecEnv) evalCall(t *ast.CallExpr) (Val, error) {
 	vc := e.vc
+	switch t.Fun.(type) {
+	case *ast.ArrayType, *ast.StarExpr, *ast.MapType, *ast.ParenExpr:
+		if typ, err := e.resolveType(t.Fun); err == nil && len(t.Args) == 1 {
+			v, err := e.eval(t.Args[0])
+			if err != nil {
+				return Val{}, err
+			}
+			return e.convertTo(v, typ)
+		}
+	}
 	boolT := types.Typ[types.Bool]
 	intT := types.Typ[types.Int]
 	strT := types.Typ[types.String]
@@ -647,6 +705,10 @@ func (e *SpecEnv) evalCall(t *ast.CallExpr) (Val, error) {
 				return Val{T: fmt.Sprintf("(= (itag %s) %d)", v.T, vc.S.tag(typ)), Typ: boolT}, nil
 			}
 			un := fmt.Sprintf("(%s (iid %s))", vc.S.unboxFn(typ), v.T)
+			// an unboxed value satisfies its type invariant whenever the interface holds that type
+			for _, c := range vc.S.typeInv(un, typ, vc.allocTerm(e.curState().heap), 0) {
+				vc.assume(fmt.Sprintf("(= (itag %s) %d)", v.T, vc.S.tag(typ)), c)
+			}
 			return vc.mkVal(un, typ), nil
 		}
 	}
@@ -720,6 +782,15 @@ general:
 				return Val{T: vc.mapLen(e.curState(), u, a.T), Typ: intT}, nil
 			}
 			return Val{}, fmt.Errorf("len of %v", a.Typ)
+		case "first", "second", "third":
+			if err := need(1); err != nil {
+				return Val{}, err
+			}
+			i := map[string]int{"first": 0, "second": 1, "third": 2}[id.Name]
+			if i >= len(args[0].Tuple) {
+				return Val{}, fmt.Errorf("%s of non-tuple", id.Name)
+			}
+			return args[0].Tuple[i], nil
 		case "box":
 			if err := need(1); err != nil {
 				return Val{}, err
@@ -804,6 +875,11 @@ general:
 		if typ, err := e.resolveType(id); err == nil && len(args) == 1 {
 			return e.convertTo(args[0], typ)
 		}
+		if e.pkg != nil {
+			if fo, ok := e.pkg.Scope().Lookup(id.Name).(*types.Func); ok {
+				return e.callFunc(vc.eng.prog.FuncValue(fo), fo, args)
+			}
+		}
 		return Val{}, fmt.Errorf("unknown spec function %s", id.Name)
 	}
 	// qualified or method call
@@ -855,6 +931,7 @@ general:
 	if _, isIface := cur.Typ.Underlying().(*types.Interface); isIface {
 		key := types.TypeString(cur.Typ, shortQual) + "." + fn.Name()
 		sig := fn.Type().(*types.Signature)
+		args = e.coerceArgs(args, sig, false)
 		return vc.ufApply(e.curState(), key, append([]Val{cur}, args...), resultType(sig), "spec"), nil
 	}
 	sfn := vc.eng.prog.FuncValue(fn)
@@ -870,6 +947,41 @@ general:
 		cur = vc.mkVal(term, vc.locType(cur.Loc))
 	}
 	return e.callFunc(sfn, fn, append([]Val{cur}, args...))
+}
+
+// coerceArgs gives untyped arguments (nil, integer literals) the parameter type and boxes
+// concrete values passed for interface parameters.
+func (e *SpecEnv) coerceArgs(args []Val, sig *types.Signature, hasRecv bool) []Val {
+	vc := e.vc
+	out := make([]Val, len(args))
+	for i, a := range args {
+		out[i] = a
+		pi := i
+		if hasRecv {
+			pi = i - 1
+		}
+		if pi < 0 || pi >= sig.Params().Len() {
+			continue
+		}
+		pt := sig.Params().At(pi).Type()
+		if sig.Variadic() && pi == sig.Params().Len()-1 {
+			continue
+		}
+		if a.Typ == nil {
+			if a.T == "nil" {
+				out[i] = vc.mkVal(vc.S.zero(pt), pt)
+			} else {
+				out[i] = vc.mkVal(a.T, pt)
+			}
+			continue
+		}
+		if _, pIface := pt.Underlying().(*types.Interface); pIface {
+			if _, aIface := a.Typ.Underlying().(*types.Interface); !aIface {
+				out[i] = Val{T: vc.box(e.curState(), a, a.Typ), Typ: pt}
+			}
+		}
+	}
+	return out
 }
 
 func resultType(sig *types.Signature) types.Type {
@@ -911,10 +1023,11 @@ func (e *SpecEnv) callFunc(sfn *ssa.Function, fn *types.Func, args []Val) (Val, 
 	sig := sfn.Signature
 	rt := resultType(sig)
 	st := e.curState()
+	args = e.coerceArgs(args, sig, sig.Recv() != nil)
 	if r, ok := vc.interpretedSpec(key, args, rt, st); ok {
 		return r, nil
 	}
-	if c := vc.eng.contractFor(key); c != nil && !c.Extern {
+	if c := vc.eng.contractFor(key); c != nil && !c.Extern && !c.Trusted {
 		if !c.Pure {
 			return Val{}, fmt.Errorf("specification calls %s, which is not marked pure", key)
 		}
@@ -952,6 +1065,10 @@ func (e *SpecEnv) callFunc(sfn *ssa.Function, fn *types.Func, args []Val) (Val, 
 		vc.eng.specMemo[vc][memo] = res
 		c.Used = true
 		return res, nil
+	}
+	if c := vc.eng.contractFor(key); c != nil {
+		vc.assumed["assumed contract: "+key] = true
+		return vc.ufApply(st, key, args, rt, "spec"), nil
 	}
 	if sfn.Blocks != nil && (sfn.Synthetic != "" || isTrivialGetter(sfn)) {
 		// small package-local helper without contract: execute it symbolically (read-only)
